@@ -564,8 +564,8 @@ def _delegate_event_sources(repo, rep, tier):
     from . import c05
 
     rep.rule("event-sources", "ARTIM expiry is raised as Evt18 unconditionally at the top of every reactor iteration; one event is dispatched per iteration (C05 reactor-order)")
-    sub = _R("C05", tier, c05.LEVEL, "")
-    c05.run(repo, sub, tier)
+    from ..delegate import run_lender
+    sub = run_lender(repo, "C04", "C05", tier)
     n = sum(1 for o in sub.obligations if o["rule"] == "reactor-order" and o["ok"])
     rep.ok("event-sources", f"{n} reactor-order obligations (C05) hold", "")
     for f in sub.failures:
